@@ -1478,7 +1478,13 @@ private:
                                  ".add_constraints.add_disequation");
     for (auto kv : e) {
       variable_t pivot = kv.second;
-      interval_t i = compute_residual(e, pivot) / interval_t(kv.first);
+      interval_t residual = compute_residual(e, pivot);
+      interval_t coef(kv.first);
+      interval_t i = residual / coef;
+      if (!(i * coef == residual)) {
+        // the quotient was rounded: no value of pivot is excluded
+        continue;
+      }
       if (auto k = i.singleton()) {
         if (!add_univar_disequation(pivot, *k)) {
           // already set to bottom
